@@ -306,6 +306,14 @@ def call_obligation(ctx, rep, world, pr, p, b, bi, t, info, n_site, r32_sinks):
         ln = pr.len_range(srcv, bi)
         rep.check(ln == (n_, n_), "copy-len", p, "%s#%d" % (short, seq), "constant %d-byte destination range, source of length %s" % (n_, ln[0]), "copy_from_slice: destination has %d bytes, source length in [%s,%s]" % (n_, ln[0], ln[1]), b.loc(bi))
         return
+    if short in ("split_at", "split_at_mut") and info.get("const_split"):
+        k_, n_ = info["const_split"]
+        rep.ok("range-index", p, "%s#%d" % (short, seq), "constant split point %d within %d bytes" % (k_, n_), b.loc(bi))
+        return
+    if short in ("split_at", "split_at_mut") and "slice" in name and len(args) == 2 and p in r32_sinks and util.numnorm(args[1])[0] == "len":
+        # array.split_at_mut(len(v)) of a fixed-width copy site: like array[0..len(v)]
+        rep.ok("range-index", p, "%s#%d" % (short, seq), "array.split_at_mut(len(v)) with len(v) <= width by the Reduced32 precondition on every caller (rule reduced32)", b.loc(bi))
+        return
     if short in ("split_at", "split_at_mut") and "slice" in name and len(args) == 2:
         base = se.call_old.get((info["site"], 0)) if strip(args[0])[0] == "mutref" else args[0]
         ln = pr.len_range(base, bi) if base is not None else (0, INF)
@@ -327,13 +335,17 @@ def call_obligation(ctx, rep, world, pr, p, b, bi, t, info, n_site, r32_sinks):
             dest = info["locargs"][0]
             d = dest[1] if dest[0] == "ref" else None
             ok = False
-            if d is not None and d[0] == "deref" and util.is_call(strip(d[1])) and strip(d[1])[1].endswith("index_mut"):
-                r = strip(d[1])[2][1]
+            dd = strip(d[1]) if d is not None and d[0] == "deref" else None
+            if dd is not None and (util.is_call(dd) and dd[1].endswith("index_mut") or dd[0] == "field" and dd[2] == 0 and util.is_call(dd[1]) and dd[1][1].split("::")[-1] == "split_at_mut"):
                 e = None
-                if r[0] == "agg" and r[2] == "std::ops::Range" and r[4][0][:2] == ("int", 0):
-                    e = util.numnorm(r[4][1])
-                elif r[0] == "agg" and r[2] == "std::ops::RangeTo":
-                    e = util.numnorm(r[4][0])
+                if dd[0] == "field":
+                    e = util.numnorm(dd[1][2][1])       # the low part of array.split_at_mut(len(v))
+                else:
+                    r = dd[2][1]
+                    if r[0] == "agg" and r[2] == "std::ops::Range" and r[4][0][:2] == ("int", 0):
+                        e = util.numnorm(r[4][1])
+                    elif r[0] == "agg" and r[2] == "std::ops::RangeTo":
+                        e = util.numnorm(r[4][0])
                 if e is not None:
                     src = strip(args[1])
                     while util.is_call(src) and (src[1] in util.IDENT_CALLS or src[1].endswith("::to_vec") or "deref" in src[1]):
